@@ -32,3 +32,38 @@ Example C18_ex_cluster_trace :
   call_ok [10; 2; 1; 1; 4; 1; 2; 2; 1] [Get 4; Get 4; Get 0; Get 2; Get 0; Get 3; Ret 0; Ret 3; Ret 0; Ret 2; Get 1; Ret 4; Ret 4; Ret 1] = true
   /\ call_ok [10; 2; 1; 1; 4; 1; 2; 2; 1] [Get 4; Get 4; Ret 4] = false.
 Proof. split; reflexivity. Qed.
+
+(* occupancy accounting: after ANY trace that does not panic, the occupancy of pool t is the initial
+   one minus what was borrowed plus what was returned, and the number of pools is unchanged *)
+Theorem C18_occupancy_accounting : forall t tr p p',
+  t < length p -> run p tr = Some p' ->
+  nth t p' 0 + gets t tr = nth t p 0 + rets t tr /\ length p' = length p.
+Proof. exact occupancy_accounting. Qed.
+Print Assumptions C18_occupancy_accounting.
+
+(* a call accepted by the trace check borrows and returns equally many buffers of every pool *)
+Theorem C18_call_ok_balanced : forall caps tr t,
+  t < length caps -> call_ok caps tr = true -> gets t tr = rets t tr.
+Proof. exact call_ok_balanced. Qed.
+Print Assumptions C18_call_ok_balanced.
+
+(* the converse direction of the property's "therefore": a call that keeps a single buffer of pool t
+   can be repeated at most cap(t) times; one more repetition panics ("Out of instances") ... *)
+Theorem C18_leak_exhausts : forall caps tr t n,
+  t < length caps -> gets t tr = S (rets t tr) -> nth t caps 0 < n ->
+  run caps (concat (repeat tr n)) = None.
+Proof. exact leak_exhausts. Qed.
+Print Assumptions C18_leak_exhausts.
+
+(* ... and before that the only trace of the leak is the occupancy, lower by one per call — which is
+   why the check compares occupancies at every call boundary instead of waiting for the panic *)
+Theorem C18_leak_is_silent_until_then : forall caps tr t n p',
+  t < length caps -> gets t tr = S (rets t tr) -> run caps (concat (repeat tr n)) = Some p' ->
+  nth t p' 0 + n = nth t caps 0.
+Proof. exact leak_is_silent_until_then. Qed.
+Print Assumptions C18_leak_is_silent_until_then.
+
+Example C18_ex_leak :
+  let caps := [10; 2; 1; 1; 4; 1; 2; 2; 1] in let tr := [Get 4; Get 4; Ret 4] in
+  gets 4 tr = S (rets 4 tr) /\ run caps (concat (repeat tr 3)) <> None /\ run caps (concat (repeat tr 5)) = None.
+Proof. cbv zeta. split; [reflexivity|]. split; [intro E; vm_compute in E; discriminate E|reflexivity]. Qed.
